@@ -16,6 +16,9 @@ def cases(tier):
         for which in ('full', 'own', 'dummy', 'random'):
             cs.append((play.case_available_state, f'{which}: board in progress with {t} cards on the table',
                        dict(props=PROPS, t=t, which=which)))
+    for seat in range(1, 5):
+        cs.append((play.case_available_sequence, f'observer in seat {seat}: query, play, query again (first trick, real constructor)',
+                   dict(props=PROPS, obs_seat=seat, n=3)))
     return cs
 
 
@@ -27,7 +30,7 @@ META = dict(
     assumptions=play.COMMON_ASSUMPTIONS,
     rule='feasible paths of available_cards and its wrappers on symbolic sets',
     explanation='the set comprehension of the real source is evaluated on 52 symbolic membership bits; result compared bit by bit with the follow-suit rule',
-    required_outcomes=['led', 'leading', 'example player chose', 'full hand, 2 on table', 'own hand, 1 on table', 'dummy hand, 3 on table'],
+    required_outcomes=['query-play-query sequence', 'led', 'leading', ('example player chose', 'H1 not applicable'), ('full hand, 2 on table', 'H1 not applicable'), ('own hand, 1 on table', 'H1 not applicable'), ('dummy hand, 3 on table', 'H1 not applicable')],
 )
 
 
